@@ -1,7 +1,7 @@
 #!/bin/bash
 # re-evaluates every kept mutant against the quick check(s) of the property it breaks
 # usage: tools/eval_seeded.sh [id-prefix]  (extra checks per mutant: seeded/<id>/also_checks, one id per line)
-cd /verif
+cd "$(dirname "$(readlink -f "${BASH_SOURCE[0]}")")/.."
 for d in seeded/${1:-}*/; do
   id=$(basename $d)
   prop=$(/venv/bin/python -c "import json;print(json.load(open('$d/meta.json'))['breaks_property'])")
